@@ -52,6 +52,46 @@ PROPS = {
             "event dispatch (opcode EVENT never reaches the in-flight handler) is checked by the harness on the real client, not in this model",
         ],
     },
+    "C01": {
+        "lean_targets": ["Cql.Props.C01"],
+        "trusted_base": COMMON_TRUST + [HARNESS, TRANSLATOR + " (constants, validity and version predicates used by the model)",
+            "Cql/Impl/*, Cql/Prim.lean, Cql/DataType.lean: hand-written code-shaped model of primitive/*.go, datatype/*.go, message/*.go, "
+            "frame/*.go, tied to the code by the correspondence run (decoded structure, consumed bytes and re-encoded bytes compared on "
+            "generated and mutated frames of every kind, version and compression)",
+            "body compressors are parameters: the theorems assume the compressor is lossless on the body at hand (C08 covers the wrappers)"],
+        "assumptions": [
+            "version-validity is the explicit predicate ValidFrame/ValidBody/ValidMsg (+ per-message predicates), written from the specs; "
+            "the theorem C01_valid_frames_encode shows the encoder refuses no valid uncompressed frame",
+            "equality is up to canonFrame/canonMsg, whose clauses are the wire-inexpressible distinctions (nil vs empty where the format "
+            "has no null, IPv4 in 4 or 16 bytes, NewValue(nil) = null, fields not defined for the version, ColumnMetadata.Index)",
+            "Go maps are association lists in iteration order; the theorem holds for every order",
+        ],
+    },
+    "C03": {
+        "lean_targets": ["Cql.Props.C03"],
+        "trusted_base": COMMON_TRUST + [HARNESS, TRANSLATOR + " (constants, validity and version predicates used by the model)",
+            "Cql/Impl/*, Cql/Prim.lean, Cql/DataType.lean: hand-written code-shaped model of primitive/*.go, datatype/*.go, message/*.go, "
+            "frame/*.go, tied to the code by the correspondence run (decoded structure, consumed bytes and re-encoded bytes compared on "
+            "generated and mutated frames of every kind, version and compression)",
+            "body compressors are parameters: the theorems assume the compressor is lossless on the body at hand (C08 covers the wrappers)"],
+        "assumptions": [
+            "length calculators are separate transcriptions of the Go LengthOf*/EncodedLength functions",
+            "vint lengths (primitive/vint.go) are covered where the vint model is present (see DESIGN.md)",
+        ],
+    },
+    "C05": {
+        "lean_targets": ["Cql.Props.C05"],
+        "trusted_base": COMMON_TRUST + [HARNESS, TRANSLATOR + " (constants, validity and version predicates used by the model)",
+            "Cql/Impl/*, Cql/Prim.lean, Cql/DataType.lean: hand-written code-shaped model of primitive/*.go, datatype/*.go, message/*.go, "
+            "frame/*.go, tied to the code by the correspondence run (decoded structure, consumed bytes and re-encoded bytes compared on "
+            "generated and mutated frames of every kind, version and compression)",
+            "body compressors are parameters: the theorems assume the compressor is lossless on the body at hand (C08 covers the wrappers)"],
+        "assumptions": [
+            "the re-encode clause (any successfully decoded bytes re-encode and decode to an equal frame) is NOT proved: it is searched on "
+            "mutated inputs by the harness; the decoder/encoder validation asymmetries it finds are listed in known_findings.txt",
+            "DiscardBody on a seekable source is modelled as Seek(count, SeekCurrent), which succeeds past the end of the data",
+        ],
+    },
 }
 
 MANIFEST_TEXT = {
@@ -99,6 +139,39 @@ MANIFEST_TEXT = {
         "note": "Trusted: Lean kernel; the hand-written model (differentially tied to the real handler). Event dispatch and the v5 segment "
                 "path are exercised by the harness / C15, not proved here.",
         "technique": "Lean 4 per-step frame/refinement theorems + reachable-state invariant over an executable model + differential correspondence",
+    },
+    "C01": {
+        "text": "Lean theorem C01_frame_roundtrip over the code-shaped model of the whole frame codec (about 40 message kinds, all notations, "
+                "nested type descriptors, header, optional body parts, compressed and uncompressed bodies): for EVERY version-valid frame, "
+                "every supported version, any compressor lossless on the body, and ANY bytes following the frame, decode(encode f ++ rest) = "
+                "(canon f, rest). Built from one round-trip lemma per notation / message, by structural induction over lists and type "
+                "trees — no bound on sizes, depth, rows or children. Plus: the encoder refuses no valid frame. The model is tied to the Go "
+                "code by a differential run over every kind × version × compression, comparing decoded structure and bytes.",
+        "design_ref": "DESIGN.md §5 C01",
+        "note": "Trusted: Lean kernel; the hand-written model (differentially tied on every run); translator for the constants/predicates; "
+                "LZ4/Snappy block codecs are parameters (losslessness assumed for the body at hand).",
+        "technique": "Lean 4 round-trip theorems by structural induction over a code-shaped model + differential correspondence",
+    },
+    "C03": {
+        "text": "Lean theorems: every primitive LengthOf* equals the bytes its writer emits over the whole value domain; every message's "
+                "EncodedLength equals its encoder's output for every valid message; the body length in the header equals the emitted body "
+                "bytes with and without compression; the decoder consumes exactly header + declared length (arbitrary trailing bytes are "
+                "left); and by induction over the sequence, any finite list of frames written back-to-back decodes to the same list with "
+                "nothing left over.",
+        "design_ref": "DESIGN.md §5 C03",
+        "note": "Trusted: as C01. The length calculators are transcribed separately from the writers and compared with the Go ones "
+                "differentially (declared vs emitted vs EncodedLength on every generated frame; back-to-back streams).",
+        "technique": "Lean 4 length theorems + induction over frame sequences on a code-shaped model + differential correspondence",
+    },
+    "C05": {
+        "text": "Lean theorems for every version-valid frame and every trailing byte string: DecodeRawFrame reads header + exactly the "
+                "declared body and ConvertFromRawFrame gives DecodeFrame's result; ConvertToRawFrame+EncodeRawFrame and EncodeHeader+"
+                "EncodeBody write EncodeFrame's bytes; after DecodeHeader, DecodeRawBody and DiscardBody (copying and seeking) leave exactly "
+                "the bytes that follow the frame. The re-encode clause is searched (not proved) on mutated inputs; its violations on the "
+                "unchanged tree are decoder-lenient/encoder-strict asymmetries recorded as known findings.",
+        "design_ref": "DESIGN.md §5 C05",
+        "note": "Trusted: as C01. Partial: the re-encode clause over all decodable inputs is explored by mutation, not proved.",
+        "technique": "Lean 4 theorems relating partial codec paths on a code-shaped model + differential correspondence + mutation search",
     },
 }
 
